@@ -2,7 +2,7 @@
 CONF = {
     'interesting': ['compression-pointer', 'pointer-loop', 'truncated-prefix-of-valid', 'rdlength-extreme', 'opt-record',
                     'residue-records', 'dirty-buffer', 'no-fixlengths', 'error-residue', 'preserved-labels', 'label-length',
-                    'name-length', 'public-fields', 'serialize-error', 'roundtrip-checked'],
+                    'name-length', 'public-fields', 'serialize-error', 'roundtrip-checked', 'rdata-cut-consistent'],
     'rule': 'DNS messages built field by field by the harness (header, 0..2 questions, 0..4 records of the 17 RDATA types with a decoder '
             '(A AAAA NS CNAME PTR MX TXT HINFO SOA SRV OPT URI DNSKEY NAPTR SVCB HTTPS RRSIG) and of types without one, '
             'split over the three sections; names as label sequences, with backward compression pointers, pointer-only names, '
@@ -10,12 +10,16 @@ CONF = {
             '65535, every RDLENGTH forced to 0,1,2,3,4,16,65535,+-1 and the exact rest of the message +-1; pointer targets '
             '(self, header, end, beyond, forward, mutual), pointer chains of depth 1..300 around the 255-level limit, label length '
             'bytes 62..0xbf, names of 250..300 octets, names exceeding 255 octets only after decompression; the DNS layers and the '
-            'raw byte literals of layers/dns*_test.go (go/ast) whole, truncated and mutated; ordered pairs into a reused object '
+            'raw byte literals of layers/dns*_test.go (go/ast) whole, truncated and mutated; for every RDATA type a record followed by '
+            'a valid record with its RDATA cut at EVERY length and RDLENGTH equal to that length (every internal field boundary '
+            'of every RDATA decoder); pointer cycles of length 1-3 in owner and RDATA names; ordered pairs into a reused object '
             '(first leaves many records, second has fewer/none/fails/is shorter than a header); serialization of decoded values, '
             'error-path residues and values built from public fields (presentation names with escapes, malformed escapes, empty '
             'labels, over-long labels and names, wrong address sizes, 256+-byte character strings) under the option '
             'combinations into fresh/dirty/pre-sized buffers; round trips; a malformed stream; a 400-record message.',
     'assumptions': ['input slices have cap == len (spare capacity can only hide a missing length check)',
+                    'every byte string is decoded first in a child process with a 48 MB stack cap: a fatal stack overflow or a hang of '
+                    'the decoder is reported as C19:panic / C19:stuck and does not take the harness down',
                     'Go int unbounded (sizes < 2^62); fmt/reflect/strings/net.IP.String total on non-nil values',
                     'decoded names are observed as values: the aliasing of DNS.buffer is argued in the header of coq/Model/LdnsModel.v'],
     'trusted_base': ['model: coq/Model/LdnsModel.v is a hand transcription of layers/dns.go:333-421,485-511,522-810,814-963,1056-1235,'
